@@ -34,10 +34,15 @@ Cascade == {L("cascade", <<Br(k1, "L1"), Seg(a, "nop"), Br(k2, "L2"), Seg(b, "no
 \*  and is exercised by C13's label-stress programs, not here)
 Shared == {L("shared", <<Br(k1, "L1"), Seg(60, "nop"), Br(k2, "L1"), Seg(d, "nop"), Lab("L1"), Seg(3, "nop")>>) :
              k1 \in Kinds, k2 \in Kinds, d \in {60, 66, 67, 70, 130}}
+\* a far branch directly followed by a branch to ANOTHER label: not a "less-or-equal" pair, whatever it looks like
+Adjacent == {L("adjacent", <<Seg(2, "nop"), Br(k1, "L1"), Br(k2, "L2"), Seg(d, "nop"), Lab("L1"), Seg(5, "nop"), Lab("L2"), Seg(3, "nop")>>) :
+               k1 \in Kinds, k2 \in {"BEQ", "BNE", "BCC", "BMI"}, d \in {100, 124, 126, 130}}
+            \cup {L("adjacent", <<Lab("L2"), Seg(4, "nop"), Lab("L1"), Seg(d, "nop"), Br(k1, "L1"), Br(k2, "L2"), Seg(3, "nop")>>) :
+               k1 \in Kinds, k2 \in {"BEQ", "BNE"}, d \in {100, 123, 126, 130}}
 Three == {L("three", <<Br(k1, "L1"), Seg(30, "nop"), Br(k2, "L2"), Seg(30, "nop"), Br(k3, "L3"), Seg(65, "nop"), Lab("L1"),
                        Seg(30, "nop"), Lab("L2"), Seg(35, "nop"), Lab("L3"), Seg(3, "nop")>>) : k1 \in Kinds, k2 \in Kinds, k3 \in Kinds}
 
-All == Fwd \cup Bwd \cup Cascade \cup Shared \cup (IF Tier = "thorough" THEN Three ELSE {})
+All == Fwd \cup Bwd \cup Cascade \cup Shared \cup Adjacent \cup (IF Tier = "thorough" THEN Three ELSE {})
 VARIABLE lay
 Init == lay \in All
 Next == UNCHANGED lay
